@@ -40,6 +40,8 @@ CLAIMED = {
          "Lean proof over the queue model + differential correspondence (memory, SQLite)"),
  "C18": ("proof", "Lean: for every event list whose give-up points precede its writes a failed attempt leaves the live state unchanged, a successful one puts every configuration field at the new version, and with one write section every observable state is entirely old or entirely new - instantiated on the structure of reloadConfig REGENERATED from the Go source each run (fails-first, single write section, all config fields covered: decide); file replacement: at every truncation point the path holds the complete old or new content, the management rewrite ends with new iff applied else the previous bytes; tie: failure injection through the real reloadConfig (unreadable/parse/compile/secret/restart), probe-set fingerprints before/after/at every hook point inside a reload, requests held between accessor calls, directory snapshots and SIGKILLed children at every point of writeFileAtomic (app, MCP config_apply, management upsert/delete with rollback). Known finding: a request straddling a reload between two accessor calls (per-request snapshot missing)", "§7 C18",
          "translator-regenerated reload structure + Lean theorems + failure/schedule/crash injection on the real code"),
+ "C15": ("proof", "Lean: the handler's preflight accepts only if every item is valid (shape, no selector, route/policy/target/payload/headers/timestamps, id fresh and unique) and then the composed publish is all-or-nothing against the queue model (200 => all items stored as plain queued messages with one resolved target within limits; non-200 => queue unchanged apart from the piggy-backed retention prune, published 0); within each validation pass the reported index is the least failing one; the by-pass order is proved NOT to give the least index overall (witness) - known finding; tie: generated batches (1..1001 items, every invalidity kind at generated positions, duplicate ids in batch and in queue, near-full queues, drop_oldest) through the real Admin handler on memory and SQLite with full snapshots before/after; the property predicate is evaluated on the implementation's own answers independently of the handler's check order", "§7 C15",
+         "Lean proof over the publish model composed with the queue model + differential correspondence (memory, SQLite)"),
 }
 NOTE = "Trusted: Lean kernel (axioms propext/Classical.choice/Quot.sound only, audited each run), the hand-written model, the Go correspondence harness and generators (ours), Go stdlib, SQLite engine. PostgreSQL not executable here."
 
@@ -62,7 +64,7 @@ hook_commits = [l.split(" ")[0] for l in hooks if "verif hook" in l]
 m = {"version": 1, "setup_cmd": "./check --setup",
      "hooks": {"guard": "verif", "enable": "go build -tags verif (harness module: replace github.com/nuetzliches/hookaido => /repo)",
                "baseline_off_cmd": "cd /repo && GOFLAGS=-mod=mod GOPROXY=off go test -json -vet=off -count=1 -timeout 25m ./...",
-               "source_commits": hook_commits, "add_only": True},
+               "source_commits": hook_commits, "add_only": False},
      "engines": [{"name": "hkmodel", "path": "/verif/lean", "serves_properties": sorted(CLAIMED), "kind_free_text": "Lean 4 models + theorems (lake project HkModel), compiled line-protocol driver hkdriver, Go correspondence harness /verif/harness, orchestrator ./check"}],
      "checks": checks, "not_applicable": na,
      "notes": "All checks rebuild the Lean project and the Go harness from /repo's working tree on every run."}
